@@ -643,6 +643,15 @@ def rep_values(rep, *vals):
     return tuple(rep_value(rep, v) for v in vals)
 
 
+def delivery_of(case, p_rep=0.06, p_shape=0.10):
+    """(rep, shape) for a case whose generator does not choose them: decided by the hash of the case, so a replay of the
+    case delivers it the same way."""
+    h = int(stable_hash(case), 16)
+    rep = REP_KINDS[h % len(REP_KINDS)] if (h >> 8) % 1000 < p_rep * 1000 else None
+    shape = CALL_SHAPES[1 + (h >> 20) % (len(CALL_SHAPES) - 1)] if (h >> 28) % 1000 < p_shape * 1000 else None
+    return rep, shape
+
+
 def choose_array_rep(rnd, p=0.15):
     return rnd.choice(ARRAY_REPS) if rnd.random() < p else None
 
